@@ -77,6 +77,15 @@ class Program:
                 bn = _dotted(b)
                 ci.base_names.append(bn or "?")
                 ci.bases.append(self.resolve_class(ci.module, bn) if bn else None)
+        # second pass of the normal form: with all classes known, write summaries of the methods tell which self-calls leave a
+        # local's value intact (normalize.mod_summaries), so more locals can be propagated
+        if not self.src.__dict__.get("_jfsa_normal_phase_b"):
+            self.src.__dict__["_jfsa_normal_phase_b"] = True
+            from .normalize import normalise_function
+            for mi in self.modules.values():
+                for fn in [n for n in ast.walk(mi.tree) if isinstance(n, ast.FunctionDef)]:
+                    normalise_function(fn, self)
+                ast.fix_missing_locations(mi.tree)
 
     def _index_module(self, mi: ModuleInfo) -> None:
         for n in mi.tree.body:
